@@ -192,19 +192,8 @@ Proof.
   rewrite (div_eq _ (t_lmt t) (n + t_oj t) (m + t_oi t)) by lia. f_equal; lia.
 Qed.
 
-Lemma bc_plain_stored_key d m n : bc_is_plain d = true ->
-  bc_stored_key d m n = tm_data_key (bT d) m n.
-Proof. intros E. unfold bc_stored_key, bc_stored_key_g, tm_data_key. rewrite E. reflexivity. Qed.
-
-(* the k-cyclic data_of reduces m and n before building the key: on the first
-   period of the distribution the key is right *)
-Lemma bc_kcyc_stored_key_first_period d m n :
-  0 <= m + t_oi (bT d) < bkp d * bP d -> 0 <= n + t_oj (bT d) < bkq d * bQ d ->
-  bc_stored_key d m n = tm_data_key (bT d) m n.
-Proof.
-  intros Hm Hn. unfold bc_stored_key, bc_stored_key_g, tm_data_key.
-  destruct (bc_is_plain d); [reflexivity|]. rewrite !Z.mod_small by lia. reflexivity.
-Qed.
+Lemma bc_stored_key_eq d m n : bc_stored_key d m n = tm_data_key (bT d) m n.
+Proof. reflexivity. Qed.
 
 (* ---- virtual processes ---- *)
 Lemma ceil_sqrt_range n : 1 <= n -> 1 <= ceil_sqrt n <= n.
